@@ -892,6 +892,8 @@ func (ex *Exec) guardCheck(s *State, base Term, root types.Type, path []int, wri
 		}
 		ex.oblige(s, fmt.Sprintf("%s#lock.%s.%s", ex.key, fname, mode), "lock", ex.fn.Pos(), g.Tags, goal,
 			"access to "+fname+" must hold "+g.Mutex)
+		// remember that a guarded field has been accessed in this call (see lockEvent: one critical section)
+		s.Ghost["touched:"+base.S+":"+fmt.Sprint([]int{mi})] = IntLit(1)
 	}
 }
 
